@@ -116,7 +116,7 @@ func Harness_C14_commit_fault() {
 // Sequences: commit->commit, commit->discard, discard->commit, discard with fault.
 func Harness_C14_sequences() {
 	t := zzSetup(zzverif.Param("branches", 2))
-	first := zzverif.Choose("first", 2)  // 0 commit, 1 discard
+	first := zzverif.Choose("first", 2) // 0 commit, 1 discard
 	second := zzverif.Choose("second", 2)
 	snapshot := func() map[string]string {
 		m := map[string]string{}
@@ -166,5 +166,71 @@ func Harness_C14_sequences() {
 		nLogs2 += len(l)
 	}
 	zzverif.Assert("refused-operation-writes-no-log", nLogs2 == nLogs)
+	zzverif.Reach("end")
+}
+
+// An interrupted Commit, then ordinary work goes on (a plain commit lands on a branch the
+// interrupted run had already moved), then Commit is run again: it completes the
+// other branches and leaves the moved ones alone - no duplicate commit, one log
+// entry of this transaction per branch.
+func Harness_C14_commit_fault_intervening() {
+	t := zzSetup(zzverif.Param("branches", 2))
+	t.f.At = zzverif.Int("faultAt", 1, 3*len(t.names)+2)
+	t.f.Kind = zzverif.Choose("faultKind", 2)
+	crashed, err := zzrepo.TryCrash(func() error { _, e := Commit(t.db, t.rs, t.id); return e })
+	zzverif.Assume(crashed || err != nil)
+	t.f.Reopen()
+	// ordinary commits on branches that were already moved
+	txHead := map[string][]byte{}
+	later := map[string][]byte{}
+	for _, n := range t.names {
+		cur, gerr := t.rs.Get("heads/" + n)
+		if gerr != nil || bytes.Equal(cur, t.pre[n]) {
+			continue
+		}
+		txHead[n] = cur
+		if zzverif.Bool("ordinaryCommitOnMovedBranch") {
+			sum, com := zzrepo.SaveCommit(t.db, bytes.Repeat([]byte{0x77}, 16), "later work on "+n, 1600000200, cur)
+			zzverif.Assert("ordinary-commit-no-error", ref.CommitHead(t.rs, n, sum, com, nil) == nil)
+			later[n] = sum
+		}
+	}
+	c2, err2 := zzrepo.TryCrash(func() error { _, e := Commit(t.db, t.rs, t.id); return e })
+	zzverif.Assert("rerun-after-failure-succeeds", !c2 && err2 == nil)
+	tx, _ := t.rs.GetTransaction(t.id)
+	zzverif.Assert("transaction-marked-committed", tx.Status == ref.TSCommitted)
+	for _, n := range t.names {
+		cur, err := t.rs.Get("heads/" + n)
+		zzverif.Assert("branch-exists", err == nil)
+		if err != nil {
+			continue
+		}
+		txCommit := cur
+		if l, ok := later[n]; ok {
+			zzverif.Assert("rerun-leaves-a-branch-with-later-work-alone", bytes.Equal(cur, l))
+			txCommit = txHead[n]
+		} else if h, ok := txHead[n]; ok {
+			zzverif.Assert("rerun-leaves-an-already-moved-branch-alone", bytes.Equal(cur, h))
+		}
+		com, err := objects.GetCommit(t.db, txCommit)
+		zzverif.Assert("transaction-commit-readable", err == nil)
+		if err != nil {
+			continue
+		}
+		zzverif.Assert("branch-carries-staged-data", bytes.Equal(com.Table, t.tables[n]))
+		if t.pre[n] == nil {
+			zzverif.Assert("new-branch-has-no-parent", len(com.Parents) == 0)
+		} else {
+			zzverif.Assert("parent-is-pre-transaction-head-no-duplicate-commit", len(com.Parents) == 1 && bytes.Equal(com.Parents[0], t.pre[n]))
+		}
+		ntx := 0
+		for _, l := range t.rs.Logs["heads/"+n] {
+			if l.Txid != nil && *l.Txid == t.id {
+				ntx++
+				zzverif.Assert("transaction-log-entry-has-true-values", bytes.Equal(l.NewOID, txCommit) && bytes.Equal(l.OldOID, t.pre[n]))
+			}
+		}
+		zzverif.Assert("exactly-one-log-entry-of-the-transaction-per-branch", ntx == 1)
+	}
 	zzverif.Reach("end")
 }
